@@ -38,6 +38,7 @@ try:
             res["baseline"] = t.stdout.strip().splitlines()[0]
             if t.returncode != 0:
                 print("BASELINE BROKEN:", t.stdout); sys.exit(3)
+        shutil.copytree(seed, os.path.join(repo, "_seed"), dirs_exist_ok=True)
         if demo_src and place:
             dst = os.path.join(repo, place)
             os.makedirs(os.path.dirname(dst), exist_ok=True)
